@@ -3,6 +3,9 @@
 // Contracts for the deductive verification in /verif (comment-only; compiled code is unaffected).
 package signer
 
+// every collaborator the constructor checks for is present (object invariant: proved for the value the constructor returns)
+//@ spec wiredSignerHandler(h *Handler) bool = h != nil && h.signer != nil
+
 // A response carries a signature iff its state is SUCCEEDED (C06).
 
 // What protobuf-go hands to a handler after decoding a message from the wire (assumed; C20 is about wire input):
@@ -13,7 +16,7 @@ package signer
 //@ spec wireProp(r *pb.SignBeaconProposalRequest) bool = r != nil ==> (hastype(r.Id, "*pb.SignBeaconProposalRequest_PublicKey") ==> unbox(r.Id, "*pb.SignBeaconProposalRequest_PublicKey") != nil) && (hastype(r.Id, "*pb.SignBeaconProposalRequest_Account") ==> unbox(r.Id, "*pb.SignBeaconProposalRequest_Account") != nil) && (r.Domain == nil || cap(r.Domain) >= 4)
 
 //@ func (*Handler).SignBeaconAttestation
-//@ requires h != nil
+//@ requires wiredSignerHandler(h)
 //@ requires [wire] wireAtt(req)
 //@ requires [unlocked] !prelocked && (forall k [48]byte :: !held[k])
 //@ modifies tokroot, db, checkedset, deniedset, held, prelocked
@@ -21,7 +24,7 @@ package signer
 //@ ensures [failclosed] result1 == nil && result0 != nil && ((result0.State == pb.ResponseState_SUCCEEDED) <==> (result0.Signature != nil))
 
 //@ func (*Handler).SignBeaconProposal
-//@ requires h != nil
+//@ requires wiredSignerHandler(h)
 //@ requires [wire] wireProp(req)
 //@ requires [unlocked] !prelocked && (forall k [48]byte :: !held[k])
 //@ modifies tokroot, db, checkedset, deniedset, held, prelocked
@@ -29,7 +32,7 @@ package signer
 //@ ensures [failclosed] result1 == nil && result0 != nil && ((result0.State == pb.ResponseState_SUCCEEDED) <==> (result0.Signature != nil))
 
 //@ func (*Handler).Sign
-//@ requires h != nil
+//@ requires wiredSignerHandler(h)
 //@ requires [wire] wireSign(req)
 //@ requires [unlocked] !prelocked && (forall k [48]byte :: !held[k])
 //@ modifies tokroot, db, checkedset, deniedset, held, prelocked
@@ -60,7 +63,7 @@ package signer
 //@ invariant [same] forall j int :: 0 <= j && j < len(res.Responses) ==> res.Responses[j].State == old(res.Responses[j].State)
 
 //@ func (*Handler).Multisign
-//@ requires h != nil
+//@ requires wiredSignerHandler(h)
 //@ requires [wire] req != nil ==> (forall j int :: 0 <= j && j < len(req.Requests) ==> wireSign(req.Requests[j]))
 //@ requires [unlocked] !prelocked && (forall k [48]byte :: !held[k])
 //@ modifies tokroot, db, checkedset, deniedset, held, prelocked
@@ -87,7 +90,7 @@ package signer
 //@ invariant [todo-state] forall j int :: _n <= j && j < len(res.Responses) ==> res.Responses[j].State != pb.ResponseState_SUCCEEDED
 
 //@ func (*Handler).SignBeaconAttestations
-//@ requires h != nil
+//@ requires wiredSignerHandler(h)
 //@ requires [wire] req != nil ==> (forall j int :: 0 <= j && j < len(req.Requests) ==> wireAtt(req.Requests[j]))
 //@ requires [unlocked] !prelocked && (forall k [48]byte :: !held[k])
 //@ modifies tokroot, db, checkedset, deniedset, held, prelocked
